@@ -51,6 +51,22 @@ Proof.
 Qed.
 Print Assumptions c16_arm_points.
 
+(* The millisecond overloads SelectServer::Register{Single,Repeating}Timeout(unsigned int ms, ...) hand the
+   TimeoutManager exactly 1000 * ms microseconds, for every 32-bit ms, and the two int32_t arguments of the
+   TimeInterval(sec, usec) constructor they compute (ms / 1000 and ms % 1000 * 1000) do not overflow; a timer
+   registered that way has interval 1000 * ms, so c16_not_early applies with that interval. *)
+Theorem c16_ms_conversion : forall ms, ms < 2^32 ->
+  ms_to_us ms = 1000 * ms /\ ms / 1000 < 2^31 /\ ms mod 1000 * 1000 < 2^31 /\
+  forall alloc s rep h, exists e0,
+    log (do_reg alloc s rep (ms_to_us ms) h) = LReg e0 :: log s /\ eint e0 = 1000 * ms /\
+    enext e0 = clock s + 1000 * ms.
+Proof.
+  intros ms H. change (2^32) with 4294967296 in H. change (2^31) with 2147483648.
+  destruct (ms_to_us_args_fit ms H) as [A B]. repeat split; auto. apply ms_to_us_exact.
+  intros alloc s rep h. eexists. simpl. rewrite (ms_to_us_exact ms). repeat split; reflexivity.
+Qed.
+Print Assumptions c16_ms_conversion.
+
 (* It fires on the first loop iteration after the interval has elapsed: when ExecuteTimeouts returns,
    no queued timer (cancelled or not) is due, i.e. everything that was due has been taken out of the
    queue — by c16_cancel/c16_no_timer_lost below only by running it or because it was cancelled. *)
